@@ -204,6 +204,14 @@ func (k *K) clientVerifyRule(prefix, ct, method string) {
 			}
 			proofT = fi.T.Of(CallRecv(&m.Call))
 			rootT, keyT, valT = fi.T.Of(a[1]), fi.T.Of(a[2]), fi.T.Of(a[3])
+			// the store the key is looked up in is the one this client was created for: the path is
+			// ApplyPrefix(<the client state's own Merkle prefix>, <one protocol key>), not a path
+			// under a fixed store name
+			pfxOK := keyT.Op == "extract" && keyT.Name == "0" && len(keyT.Args) == 1 && keyT.Args[0].Op == "call" &&
+				strings.HasSuffix(keyT.Args[0].Name, "types.ApplyPrefix") && len(keyT.Args[0].Args) == 2 &&
+				(keyT.Args[0].Args[0].String() == FieldT(cs, "MerklePrefix").String() || strings.Contains(keyT.Args[0].Args[0].String(), "GetPrefix("+cs.String()+")"))
+			k.r.Check(pfxOK, id("member.prefix"), "BIND", fn, msite, "key path = ApplyPrefix(clientState.MerklePrefix, protocol key)",
+				"the proven path "+clip(keyT.String())+" is not ApplyPrefix(this client's Merkle prefix, key): the key is looked up under a store name that is not the one the client was configured with")
 		} else {
 			a := m.Call.Args // proof, consensusState, contractAddr, value, key
 			if len(a) < 5 {
